@@ -409,6 +409,10 @@ def gen_probe_window(rng, m):
         start, end = rng.choice([(ids[0] - 1, end), (start, ids[-1] + 1), (end + 1, end), (ids[-1] + 1, ids[-1] + 2)])
     elif y < 0.45 and i > 0:
         start = start - 1 if start - 1 not in ids and start - 1 >= ids[0] else start   # start between two ids
+    elif y < 0.6 and end is not None and end + 1 not in ids and end + 1 < ids[-1]:
+        end = end + rng.randint(1, max(1, min(3, ids[-1] - end - 1)))                   # end inside a gap between ids
+        if end in ids or end >= ids[-1]:
+            end = ids[j]
     return start, end
 
 
@@ -436,7 +440,8 @@ def gen_probe_conf(rng, rep, cfg):
         return None
     start = rng.choice(ids + [ids[0] - 1, ids[-1] + 1])
     x = rng.random()
-    labels = ['x'] if x < 0.4 else rng.choice([['x', 'y'], ['x', 'y', 'x'], ['x', 'y', 'z'], ['y', 'x', 'x', 'x']])
+    labels = rng.choice([['x'], ['x'], [0], ['']]) if x < 0.4 else \
+        rng.choice([['x', 'y'], ['x', 'y', 'x'], ['x', 'y', 'z'], ['y', 'x', 'x', 'x'], [0, 1], [1, 0, 0], ['', 'y']])
     return {'op': 'probe_conf', 'start': start, 'delta': rng.randint(0, 4),
             'alphas': rng.choice([[1], [2], [0.5, 1], [1, 3]]), 'labels': labels,
             'path_type': rng.choice(['shortest', 'fastest', 'foremost', 'fastest_shortest', 'shortest_fastest']),
